@@ -494,6 +494,8 @@ def lean_ty(t):
         return "Mode"
     if t == "Decimal":
         return "Model.Dec"
+    if t == "Ordering":
+        return "Ordering"
     if isinstance(t, tuple) and t[0] == "Result":
         return f"(Except Rt.DecimalError {lean_ty(t[1])})"
     if isinstance(t, tuple) and t[0] == "Sum":
@@ -581,6 +583,10 @@ class Emit:
                 return "u32"
             if n == "None":
                 return ("Option", hint[1] if isinstance(hint, tuple) else "?")
+            if len(e[1]) == 1 and n in ("true", "false"):
+                return "bool"
+            if n in ("Less", "Equal", "Greater") and e[1][0] == "Ordering":
+                return "Ordering"
             if len(e[1]) == 2 and e[1][0] in ("Self", "Decimal") and n in ("ZERO", "ONE"):
                 return "Decimal"
             raise Unsupported(f"unknown name {e[1]}")
@@ -621,6 +627,8 @@ class Emit:
                 return "u8"
             if m == "map":
                 return ("Option", "Decimal")
+            if m == "partial_cmp":
+                return ("Option", "Ordering")
             if m == "to_bits" and isinstance(rt, str):
                 return FLOAT_BITS[rt]
             if m in ("is_nan", "is_infinite"):
@@ -715,6 +723,10 @@ class Emit:
                 return [], "I128_MIN"
             if n == "None":
                 return [], "none"
+            if len(e[1]) == 1 and n in ("true", "false"):
+                return [], n
+            if n in ("Less", "Equal", "Greater") and e[1][0] == "Ordering":
+                return [], {"Less": "Ordering.lt", "Equal": "Ordering.eq", "Greater": "Ordering.gt"}[n]
             if len(e[1]) == 2 and e[1][0] in ("Self", "Decimal") and n in ("ZERO", "ONE"):
                 return [], f"Model.Dec.{n}"
             raise Unsupported(f"name {e[1]}")
@@ -964,6 +976,8 @@ class Emit:
             return ls, f"(compare ({xr}) ({xs[0]}))"
         if m == "signum" and signed(t):
             return ls, f"(Int.sign ({xr}))"
+        if m == "partial_cmp" and isinstance(t, str) and t in INT_TYPES:
+            return ls, f"(some (compare ({xr}) ({xs[0]})))"
         if isinstance(t, str) and t in FLOAT_BITS:
             if m == "to_bits":
                 return ls, xr
@@ -1437,7 +1451,7 @@ class Emit:
 
 # ----------------------------------------------------------------------------- driver
 GROUP_IMPORTS = {"KPow": ["Fpdec.Gen.Consts"], "KDivRounded": ["Fpdec.Gen.KRound", "Fpdec.Gen.KPow", "Fpdec.Model.Core"],
-                 "KDecDiv": ["Fpdec.Gen.KDivRounded"], "KDecMul": ["Fpdec.Gen.KDivRounded", "Fpdec.Model.Decimal"], "KNorm": [], "KAddSub": ["Fpdec.Gen.KPow", "Fpdec.Model.Decimal"], "KDecUnops": ["Fpdec.Gen.KUnops", "Fpdec.Gen.KPow", "Fpdec.Model.Decimal"], "KDecOps": ["Fpdec.Gen.KDecDiv", "Fpdec.Gen.KDecMul", "Fpdec.Gen.KNorm", "Fpdec.Gen.Consts", "Fpdec.Model.Decimal"],
+                 "KDecDiv": ["Fpdec.Gen.KDivRounded"], "KDecMul": ["Fpdec.Gen.KDivRounded", "Fpdec.Model.Decimal"], "KNorm": [], "KCmp": ["Fpdec.Gen.KPow", "Fpdec.Model.Decimal"], "KAddSub": ["Fpdec.Gen.KPow", "Fpdec.Model.Decimal"], "KDecUnops": ["Fpdec.Gen.KUnops", "Fpdec.Gen.KPow", "Fpdec.Model.Decimal"], "KDecOps": ["Fpdec.Gen.KDecDiv", "Fpdec.Gen.KDecMul", "Fpdec.Gen.KNorm", "Fpdec.Gen.Consts", "Fpdec.Model.Decimal"],
                  "KDecRound": ["Fpdec.Gen.KDivRounded", "Fpdec.Model.Decimal"],
                  "KFloat": ["Fpdec.Gen.KNorm", "Fpdec.Gen.Consts", "Fpdec.Model.Core", "Fpdec.Model.Decimal"], "KRem": ["Fpdec.Gen.KPow"], "KDecRem": ["Fpdec.Gen.KRem", "Fpdec.Model.Decimal"],
                  "KWideDiv": ["Fpdec.Gen.KWide", "Fpdec.Gen.KPow", "Fpdec.Gen.Consts", "Fpdec.Model.Core"]}
@@ -1459,6 +1473,8 @@ KERNELS = [
     ("KDecDiv", "src/binops/div_rounded.rs", "checked_div_rounded", None),
     ("KDecMul", "src/binops/mul_rounded.rs", "checked_mul_rounded", None),
     ("KNorm", "src/lib.rs", "normalize", None),
+    ("KCmp", "src/binops/cmp.rs", "eq", "Decimal", {"as": "decimal_eq", "macro": ("impl_partial_eq", 0, 0, None)}),
+    ("KCmp", "src/binops/cmp.rs", "partial_cmp", "Decimal", {"as": "decimal_partial_cmp", "macro": ("impl_partial_ord", 0, 0, None)}),
     ("KAddSub", "src/binops/add_sub.rs", "coeff_or_panic", None),
     ("KAddSub", "src/binops/add_sub.rs", "$method", "Decimal", {"as": "decimal_add", "macro": ("impl_add_sub_decimal", 0, 0, None)}),
     ("KAddSub", "src/binops/add_sub.rs", "$method", "Decimal", {"as": "decimal_sub", "macro": ("impl_add_sub_decimal", 0, 1, None)}),
